@@ -27,6 +27,12 @@ CLAIMS = {
          "Structural necessary conditions of token matching are decided on every path of every registration site: store-if-absent is one critical section, the duplicate edge returns an error without overwriting and without removing the owner's entry, the stored edge removes the same key on all exits (or hands a cleanup to callers that all run it), every table access is keyed by Token().Hash() which checksums the whole token, dispatch is one-shot and the hand-over is a non-blocking send of a hijacked message on the request's own buffered channel. Matching under adversarial response orders is not executed and not claimed.",
          TRUST + "CRC-64 collisions between different tokens are outside the claim.",
          "DESIGN.md §4 C03"),
+ "C05": ("other", "dominance / control-dependence and forced-edge path queries on handleReq and processResponse, value-flow of cache keys, constant evaluation",
+         "Structural necessary conditions of MID de-duplication are decided on every path: the per-ID lock is keyed by the request's MID, taken before the cache lookup that guards dispatch and released on every exit; a hit cannot reach dispatch and is answered with the duplicate's MID; every reply-producing arm stores the reply, for CON and NON, under the request's MID (both key functions derive from the MID parameter only); lifetime is 247 s from now; the cached bytes are a private copy. Concurrent duplicate schedules are not executed.",
+         TRUST, "DESIGN.md §4 C05"),
+ "C06": ("other", "control-dependence of the retransmitting write, structural predicate rules, value-flow of the retransmitted message, sibling rule over all removals from the pending table",
+         "Structural necessary conditions of bounded retransmission are decided: a copy is sent only while not expired and due; expiry is count ≥ MAX_RETRANSMIT or deadline, due time is start + ACK_TIMEOUT·(count+1) with the counter incremented exactly then; the timer origin is taken after the NSTART wait; copies come from a clone of the private clone and Clone rewinds the body; every one of the 5 removals from the pending table releases the copy, the ACK arm before waking the writer; NSTART weights balance; the wait has all three exits. Timing and bytes on the wire need a clock and a network and are not claimed.",
+         TRUST, "DESIGN.md §4 C06"),
  "C07": ("other", "dominance/control-dependence rules on the re-framing loop + abstract interpretation of the header parser on every proper prefix of every header shape",
          "The structural reasons framing depends only on the concatenated bytes are decided: size limit before waiting and before decoding, no consumption before the frame is complete, decoder gets exactly the announced frame and the buffer advances by the decoder's count, every proper header prefix yields ErrShortRead (abstractly interpreted with symbolic content, 8 header shapes × all prefix lengths) which the loop maps to 'wait', the announced length cannot wrap, reads append exactly what was read, hand-over is synchronous and in order. The quantification over all segmentations is argued from these, not executed.",
          TRUST,
